@@ -1,5 +1,7 @@
 #!/bin/bash
 . "$(dirname "$0")/../../lib.sh"
-# the whole tars tree (for tars.CheckPanic); tars/util/debug is replaced by a stand-in, see harness/debugstub
-build_e1 c20 -subst "tars/util/debug/debugtool.go=$VERIF_ROOT/harness/debugstub/debugtool.go" $TARS_E1_ARGS tars/util/debug
+# the whole tars tree (for tars.CheckPanic) including tars/util/debug; in panic.go and debugtool.go "os" is the
+# controlled one: Exit ends the execution, Chdir does nothing, OpenFile is an environment choice (can / cannot)
+args="${TARS_E1_ARGS/-osfiles tars\/panic.go/-osfiles tars/panic.go,tars/util/debug/debugtool.go}"
+build_e1 c20 $args tars/util/debug
 exec "$WORK/bin/c20" "$@"
